@@ -112,6 +112,23 @@ def gen(ctx, rnd, quick):
             add("maxsize-pushonly-scriptsig-" + nm, bytes([0x51]), oksig + bytes([0x00]) * 1, flags=fl)
             add("nonpush-scriptsig-" + nm, bytes([0x61]), bytes([0x51, 0x76, 0x75]), flags=fl)
             add("oversize-nonpush-scriptsig-" + nm, bytes([0x51]), bigsig + bytes([0x61]), flags=fl)
+        # the refusal branches of configure_tx_txin (each must coincide with an input validation rejects)
+        wsx = bytes([0x51])
+        add("witness-truncated-scriptsig", p2sh(b"\x00\x20" + P.sha256(wsx)), bytes([0x4c]), [wsx])
+        add("witness-scriptsig-op0", p2sh(b"\x00\x20" + P.sha256(wsx)), bytes([0x00]), [wsx])
+        add("witness-scriptsig-spk-truncated", bytes([0xa9, 0x14]) + rb(rnd, 10), P.push(b"\x00\x20" + P.sha256(wsx)), [wsx])
+        add("witness-scriptsig-spk-not-hash160", bytes([0xa8, 0x14]) + rb(rnd, 20) + bytes([0x87]), P.push(b"\x00\x20" + P.sha256(wsx)), [wsx])
+        add("witness-program-inner-length", bytes([0x00, 0x13]) + rb(rnd, 19) + bytes([0x61]), b"", [b"\x01", b"\x02"])
+        add("witness-program-inner-length-34", bytes([0x00, 0x1f]) + rb(rnd, 31) + bytes([0x61]), b"", [wsx])
+        add("witness-version-1negate", bytes([0x4f, 0x14]) + rb(rnd, 20), b"", [b"\x01", b"\x02"])
+        add("witness-version-16", bytes([0x60, 0x14]) + rb(rnd, 20), b"", [b"\x01"], flags=R.STD & ~(1 << FB["DISCOURAGE_UPGRADABLE_WITNESS_PROGRAM"]), finding="F-C03-future-witness-version")
+        add("witness-v1-20-bytes", bytes([0x51, 0x14]) + rb(rnd, 20), b"", [b"\x01"], flags=R.STD & ~(1 << FB["DISCOURAGE_UPGRADABLE_WITNESS_PROGRAM"]), finding="F-C03-future-witness-version")
+        add("p2wsh-script-with-undefined-opcode-executed", b"\x00\x20" + P.sha256(bytes([0xfe])), b"", [bytes([0xfe])])
+        txu, ftxu = S.custom(rnd, bytes([0x51]))
+        txu = (txu[0], [(rb(rnd, 32),) + tuple(txu[1][0][1:])], txu[2], txu[3])
+        cases.append((S.spend_line(txu, ftxu, R.STD), {"kind": "custom", "label": "funding-tx-not-referenced", "flags": R.STD}))
+        s6 = S.build(rnd, "p2tr-script", {"leaf_script": bytes([0x75]) * 1000 + bytes([0x51]), "leaf_args": [b"\x01"] * rnd.choice((1000, 1001)), "annex": False})
+        cases.append((S.spend_line(s6.tx, s6.txin, R.STD), {"kind": "p2tr-script", "label": "tapscript-1000-or-1001-items", "flags": R.STD}))
         add("bare-true", bytes([0x51]))
         add("bare-false", bytes([0x00]))
         add("bare-empty-stack", bytes([0x61]))
